@@ -67,6 +67,9 @@ mod error;
 mod regret;
 mod solve;
 mod split;
+#[cfg(kani)]
+#[path = "/verif/kani/h_lib.rs"]
+mod verif_kani;
 
 use compact::{Builder, OptBuilder};
 pub use error::{GameError, SolveError, StratError};
